@@ -4,7 +4,7 @@ import itertools
 from lib import *
 
 THEOREMS = ["Lex.lex_source_of_tokens", "Lex.layout_irrelevant", "Lex.lex_line_of_tokens", "Lex.lexLineAux_sequence", "Lex.lexemeP_ident", "Lex.lexemeP_builtin",
-            "Lex.lexemeP_keyword", "Lex.lexemeP_sym1", "Lex.lexemeP_sym2", "Lex.lexemeP_string", "Lex.lexemeP_char", "Lex.string_literal_exact", "Lex.char_literal_exact", "Lex.lexQuote_items", "Lex.lexemeP_decimal",
+            "Lex.lexemeP_keyword", "Lex.lexemeP_sym1", "Lex.lexemeP_sym2", "Lex.lexemeP_string", "Lex.lexemeP_char", "Lex.lexer_total", "Lex.lexStep_progress", "Lex.string_literal_exact", "Lex.char_literal_exact", "Lex.lexQuote_items", "Lex.lexemeP_decimal",
             "Lex.lexemeP_hex_suffix", "Lex.lexemeP_zero", "Lex.fixed_spellings_lex", "Lex.lexStep_decimal", "Lex.lexStep_decimal_suffix", "Lex.lexStep_decimal_overflow",
             "Lex.lexStep_hex", "Lex.lexStep_hex_suffix", "Lex.lexStep_hex_overflow", "Lex.lexStep_bin",
             "Lex.lexStep_bin_suffix"]
